@@ -37,6 +37,31 @@ INFO_KEYS = {1: "compressed_metablocks", 2: "uncompressed_metablocks", 3: "metad
 RUST_LENIENT = {6, 10, 11}
 
 
+def build_harness(profile):
+    """the harness is built against /repo; with VERIF_REPO set (mutation self-test on a copy of the tree) a
+    private copy of the harness crate pointing at that tree is built into its own target directory"""
+    import shutil
+    repo = os.environ.get("VERIF_REPO")
+    if not repo or os.path.abspath(repo) == "/repo":
+        return vlib.harness_build("c01", profile)
+    src = os.path.join(vlib.ROOT, "harness")
+    dst = os.path.join(vlib.BUILD, "mut_c01", "harness")
+    os.makedirs(os.path.join(dst, "src", "bin"), exist_ok=True)
+    os.makedirs(os.path.join(dst, ".cargo"), exist_ok=True)
+    tgt = os.path.join(vlib.BUILD, "mut_c01", "target")
+    open(os.path.join(dst, "Cargo.toml"), "w").write(open(os.path.join(src, "Cargo.toml")).read().replace('path = "/repo"', 'path = "%s"' % repo))
+    open(os.path.join(dst, ".cargo", "config.toml"), "w").write('[net]\noffline = true\n[build]\ntarget-dir = "%s"\n' % tgt)
+    for f in ("lib.rs", "streamlib.rs"):
+        shutil.copy(os.path.join(src, "src", f), os.path.join(dst, "src", f))
+    shutil.copy(os.path.join(src, "src", "bin", "c01.rs"), os.path.join(dst, "src", "bin", "c01.rs"))
+    if os.path.exists(os.path.join(src, "Cargo.lock")):
+        shutil.copy(os.path.join(src, "Cargo.lock"), os.path.join(dst, "Cargo.lock"))
+    with vlib.Lock("cargo-mut-c01"):
+        rc, out = vlib.sh("timeout 1500 cargo build --offline %s --bin c01 2>&1" % ("" if profile == "dev" else "--release"),
+                          cwd=dst, env={"RUSTFLAGS": "--cfg %s" % vlib.GUARD}, timeout=1600)
+    return rc == 0, out, os.path.join(tgt, "debug" if profile == "dev" else "release", "c01")
+
+
 def pstr(d):
     return ",".join("%d:%d" % (k, v) for k, v in d)
 
@@ -285,7 +310,7 @@ def check(run):
         run.note("dictionary generation failed: %r" % e)
     okx, logx = vlib.coq_extract("C01")
     okm, logm, model = vlib.ocaml_build("C01", "c01_driver.ml")
-    okh, logh, impl_exe = vlib.harness_build("c01", "dev")
+    okh, logh, impl_exe = build_harness("dev")
     if not okh:
         run.report("proof-obligation", {"stage": "harness build"}, {"log": logh[-3000:]}, broken="harness does not build against /repo (hook verif_wrap_position missing?)", found_input=False)
         return
@@ -325,6 +350,15 @@ def check(run):
     def reach(k, n=1):
         reached[k] = reached.get(k, 0) + n
 
+    nrep = {}
+
+    def report(kind, case, observed, **kw):
+        """at most 4 replays per failure class and run (every failure is still counted in stream_stats)"""
+        key = (kind, case.get("status"))
+        nrep[key] = nrep.get(key, 0) + 1
+        if nrep[key] <= 4:
+            run.report(kind, case, observed, **kw)
+
     for k, ((c, meta), o, cm) in enumerate(zip(cases, impl, cres)):
         f = parse_r(o)
         case = dict(meta)
@@ -337,7 +371,7 @@ def check(run):
         if f is None:
             stats["panic"] += 1
             case["status"] = "crash"
-            run.report("spec-violation", case, {"impl": o[:400]}, what="the harness process died or panicked outside a stream call")
+            report("spec-violation", case, {"impl": o[:400]}, what="the harness process died or panicked outside a stream call")
             continue
         st = f["st"]
         tot_calls += int(f.get("calls", 0))
@@ -346,7 +380,7 @@ def check(run):
             stats[kind] += 1
             case["status"] = kind
             case["panic"] = st[:200]
-            run.report("spec-violation", case, {"impl": o[:600], "spec": "every call succeeds without panicking and the stream finishes"},
+            report("spec-violation", case, {"impl": o[:600], "spec": "every call succeeds without panicking and the stream finishes"},
                        what="compress_stream %s" % st[:120])
             continue
         good = True
@@ -366,14 +400,14 @@ def check(run):
             dok = (dd[0] == "OK" and dd[1] == f["n"] and dd[2] == f["ih"])
         if not good:
             case["status"] = "wrong-or-undecodable"
-            run.report("spec-violation", case, {"impl": o[:300] + " ... ", "rust_decoder": f["rd"], "google_decoder": f["gd"], "D": (d or "-")[:200],
+            report("spec-violation", case, {"impl": o[:300] + " ... ", "rust_decoder": f["rd"], "google_decoder": f["gd"], "D": (d or "-")[:200],
                                                 "spec": "independent decoders return exactly the input"},
                        what="finished stream is not decoded to the input by the reference decoders (rd=%s gd=%s)" % (f["rd"], f["gd"]))
             continue
         if dok is False:
             stats["D_bad"] += 1
             case["status"] = "D-disagrees"
-            run.report("proof-obligation", case, {"impl_stream": f["out"][:400], "D": d[:300], "reference_decoders": "both return the input"},
+            report("proof-obligation", case, {"impl_stream": f["out"][:400], "D": d[:300], "reference_decoders": "both return the input"},
                        broken="the RFC 7932 decoder spec D does not parse / decode a stream that both reference decoders decode to the input (translation validation failed; spec or stream at fault)",
                        found_input=False)
             continue
@@ -381,7 +415,7 @@ def check(run):
         if f["rb"].startswith("bad"):
             stats["ringbuffer_bad"] += 1
             case["status"] = "ringbuffer"
-            run.report("correspondence", case, {"impl": f["rb"], "model": "C01_ringbuffer: the last min(total, size) input bytes are at their masked positions"},
+            report("correspondence", case, {"impl": f["rb"], "model": "C01_ringbuffer: the last min(total, size) input bytes are at their masked positions"},
                        broken="ring-buffer statement (C01_ringbuffer) does not hold on the real buffer: %s" % f["rb"], found_input=False)
         # configuration: model vs implementation (hasher type only when a hasher was set up)
         ic = f["cfg"].split(",")
@@ -398,7 +432,7 @@ def check(run):
         if not same or mc.get("hq") != "1":
             stats["config_disagree"] += 1
             case["status"] = "config"
-            run.report("correspondence", case, {"impl": f["cfg"], "model": cm}, broken="configuration: model/EncConfig.v vs ensure_initialized/ChooseHasher (or the hq.rs histogram bound is violated)", found_input=False)
+            report("correspondence", case, {"impl": f["cfg"], "model": cm}, broken="configuration: model/EncConfig.v vs ensure_initialized/ChooseHasher (or the hq.rs histogram bound is violated)", found_input=False)
         # reached classes
         n = int(f["n"])
         rbsize = int(ic[7])
@@ -494,8 +528,9 @@ def check(run):
         spec_ok = a.isdigit() and all(int(a) % (1 << kk) == p % (1 << kk) for kk in (1, 10, 24, 30)) and int(a) < (1 << 32) and (p < (3 << 30) and int(a) == p or p >= (3 << 30) and (1 << 30) <= int(a) < (3 << 30))
         if not spec_ok:
             nw_bad += 1
-            run.report("spec-violation", {"request": l, "section": "wrap-position", "status": "wrap"}, {"impl": a, "model": b, "spec": "WrapPosition(p) = p mod 2^30 (+ 2^30 or 2^31 beyond 3*2^30), < 2^32"},
-                       what="WrapPosition does not preserve the low 30 bits / leaves its range")
+            if nw_bad <= 3:
+                run.report("spec-violation", {"request": l, "section": "wrap-position", "status": "wrap"}, {"impl": a, "model": b, "spec": "WrapPosition(p) = p mod 2^30 (+ 2^30 or 2^31 beyond 3*2^30), < 2^32"},
+                           what="WrapPosition does not preserve the low 30 bits / leaves its range")
         elif a != b:
             nw_bad += 1
             if nw_bad <= 3:
@@ -522,7 +557,8 @@ def check(run):
     for l, a, b in zip(blines, bi, bm):
         if not a.startswith("rb=ok") and not a.startswith("rb=na"):
             nb_bad += 1
-            run.report("correspondence", {"request": l[:300], "section": "ring-buffer", "status": "ringbuffer"}, {"impl": a, "model": b},
+            if nb_bad <= 3:
+                run.report("correspondence", {"request": l[:300], "section": "ring-buffer", "status": "ringbuffer"}, {"impl": a, "model": b},
                        broken="ring buffer: the real buffer violates the statement of C01_ringbuffer", found_input=False)
         elif a.replace("rb=na", "rb=ok") != b:
             nb_bad += 1
@@ -537,7 +573,7 @@ def check(run):
     # ------------------------------------------------------------------ thorough: past 2^30 / 2^31 / 2^32 input positions
     giant = []
     if thorough:
-        okr, logr, rel = vlib.harness_build("c01", "release")
+        okr, logr, rel = build_harness("release")
         if okr:
             glines = ["G 2 22 1200000000 1000003 %d" % rng.randrange(1, 1000), "G 2 24 4400000000 1000003 %d" % rng.randrange(1, 1000),
                       "G 2 30 2300000000 1000003 %d" % rng.randrange(1, 1000), "G 5 30 2300000000 1000003 %d" % rng.randrange(1, 1000)]
@@ -602,14 +638,14 @@ def check(run):
 def replay(path):
     d = json.load(open(path))
     case = d.get("case", {})
-    _, _, impl_exe = vlib.harness_build("c01", "dev")
+    _, _, impl_exe = build_harness("dev")
     import gen_c01_dict
     gen_c01_dict.generate(os.path.join(vlib.BUILD, "ocaml", "c01"))
     vlib.coq_regen(["Format"])
     vlib.coq_extract("C01")
     _, _, model = vlib.ocaml_build("C01", "c01_driver.ml")
     if case.get("script", "").startswith("G "):
-        _, _, rel = vlib.harness_build("c01", "release")
+        _, _, rel = build_harness("release")
         r = vlib.run_lines(rel, [case["script"]], timeout=3000)[0]
         print("script: %s\nimpl:  %s" % (case["script"], r))
         return 0 if ("ok=1" in r and "rd=ok" in r and "gd=fail" not in r) else 1
